@@ -70,11 +70,12 @@ func renderRun(j renderJob, shades [][]int) *trace.Scenario {
 		nobj := rng.Intn(11)
 		// every third scene is a crowd: ten objects within a few pixels of each other, so that at most pixels of the
 		// area several objects compete, transparent and opaque ones, with either palette, flipped or not
-		crowd := rng.Intn(3) == 0
+		style := int(j.seed % 5) // 0, 3: a crowd; 1: bottom-and-top rows; others: scattered
+		crowd := style == 0 || style == 3
 		crowdX := 8 + rng.Intn(150)
 		// every fifth scene (unless a crowd): six objects on the bottom lines and five on the top lines, side by side -
 		// never more than ten on a line, eleven if a per-line count leaked from line 143 of one frame into line 0 of the next
-		edges := !crowd && rng.Intn(5) == 0
+		edges := style == 1
 		if crowd {
 			nobj = 10
 		}
@@ -130,12 +131,21 @@ func renderRun(j renderJob, shades [][]int) *trace.Scenario {
 				y = 160 + rng.Intn(96) // hidden below the screen
 				x = rng.Intn(256)
 			}
+			if edges && i < nobj {
+				t, a = 1+i%2, a&0xf0 // solid tiles (written below), so that a missing object is seen
+			}
 			m.M.Write(uint16(0xfe00+4*i), uint8(y))
 			m.M.Write(uint16(0xfe00+4*i+1), uint8(x))
 			m.M.Write(uint16(0xfe00+4*i+2), uint8(t))
 			m.M.Write(uint16(0xfe00+4*i+3), uint8(a))
 		}
 		lcdc := 0x81 | rng.Intn(2)<<1 | rng.Intn(2)<<3 | rng.Intn(2)<<4 | rng.Intn(2)<<5 | rng.Intn(2)<<6
+		if edges {
+			lcdc |= 0x02
+			for k := 0; k < 32; k++ {
+				m.M.Write(uint16(0x8010+k), uint8([]int{0xff, 0x0f, 0xff, 0xf0}[k%4]|0x81))
+			}
+		}
 		wx := 7 + rng.Intn(160)
 		wy := rng.Intn(144)
 		if rng.Intn(4) == 0 {
@@ -234,7 +244,7 @@ func renderMain(c *Ctx) {
 		return
 	}
 	rng := c.Rand(1501)
-	count, pixels := 20, 600
+	count, pixels := 30, 600
 	if c.Thorough() {
 		count, pixels = 300, -1
 	}
